@@ -57,6 +57,10 @@ class Spec:
         ops = rng.sample(OPS, self.nlayers)
         for i in range(self.nlayers):
             kind = rng.choice(KINDS if rng.random() < 0.8 else ['direct', 'named', 'aliased'])
+            if kind == 'override_group' and i > 0:
+                # only as the top layer: elsewhere its FINAL value (an open list) would be the first element of a caller's
+                # sequence and be spliced there - the recorded C01 finding, which would mask real differences here
+                kind = 'direct'
             self.layers.append({'kind': kind, 'op': ops[i], 'cut': rng.random() < 0.25,
                                 'unary': rng.random() < 0.2, 'op2': rng.choice([o for o in OPS if o != ops[i]])})
         self.parens = rng.random() < 0.6
@@ -377,11 +381,6 @@ def check_grammar(acc, spec, g, rng, tier, origin):
                               f'{L.grammar_text(g)!r} input {text!r} REF={a} TATSU={b}',
                               D.witness(g, start, text, a, b, r, origin=origin))
                 continue
-            if tag == 'ast' and 'open-list-rule-value' in r.triggers:
-                acc.violation('ast/trigger:open-list-rule-value',
-                              f'a rule value that is an open list (override of a group) is spliced into its caller: '
-                              f'{L.grammar_text(g)!r} input {text!r} REF={a} TATSU={b}', D.witness(g, start, text, a, b, r, origin=origin))
-                continue
             sig = f'{tag}/' + '+'.join(sorted({l["kind"] for l in spec.layers}))
             acc.violation(sig, f'left-recursive parse differs from seed growing ({tag}): {L.grammar_text(g)!r} input {text!r} REF={a} TATSU={b}',
                           D.witness(g, start, text, a, b, r, origin=origin))
@@ -402,11 +401,6 @@ def check_grammar(acc, spec, g, rng, tier, origin):
                         # the two oracles disagree with each other: harness doubt, not a verdict
                         acc.count('oracle_disagreement')
                         acc.note(f'PC vs REF disagree on {L.grammar_text(g)!r} {text!r}: PC={cc} REF={a}')
-                    elif 'open-list-rule-value' in r.triggers and cc[:2] == b[:2]:
-                        acc.violation('ast/trigger:open-list-rule-value',
-                                      f'a rule value that is an open list (override of a group) is spliced into its caller: '
-                                      f'{L.grammar_text(g)!r} input {text!r} expected {cc} got {b}',
-                                      D.witness(g, start, text, cc, b, r, origin=origin))
                     else:
                         acc.violation('pc/' + '+'.join(sorted({l["kind"] for l in spec.layers})),
                                       f'not the left-associative tree over the longest prefix: {L.grammar_text(g)!r} input {text!r} expected {cc} got {b}',
